@@ -740,7 +740,26 @@ Section Parser.
     {| g_stop := SNone; g_nl := NLNone; g_require := true; g_child := CPSelf;
        g_incl_pre := true; g_handle_stop := false |}.
 
-  Definition parse_fuel : nat := 8 * length s + 40.
+  (** The recursion budget of a top-level parse.  It depends on the context:
+      [max_args cx] is the maximal number of argument slots of any
+      specification of [cx]; with [fuel_unit] units per input character and
+      [fuel_base] on top, no parse of any string under any context runs out of
+      fuel ([Proofs/ParserTerm.v]: [parse_top_terminates]).  A context without
+      argument slots gets the former constant budget [8 * length s + 40]. *)
+  Definition nargs (sp : cspec) : nat :=
+    match sp_args sp with APStd l => length l | APLegacy _ => 0 end.
+  Definition onargs (o : option cspec) : nat := match o with Some sp => nargs sp | None => 0 end.
+  Definition specs_max (l : list (str * cspec)) : nat := list_max (map (fun x => nargs (snd x)) l).
+  (** the maximal number of argument slots of any specification of the context *)
+  Definition max_args : nat :=
+    Nat.max (specs_max (cx_macros cx))
+      (Nat.max (specs_max (cx_envs cx))
+         (Nat.max (specs_max (cx_specials cx))
+            (Nat.max (onargs (cx_unk_macro cx)) (onargs (cx_unk_env cx))))).
+
+  Definition fuel_unit : nat := 8 + max_args.
+  Definition fuel_base : nat := 40 + max_args.
+  Definition parse_fuel : nat := length s * fuel_unit + fuel_base.
 
   Definition parse_top (ps : pstate) : res out :=
     parse_content (run parse_fuel (TGeneral ps top_opts 0)).
